@@ -108,6 +108,9 @@ class Instance:
                 return 0
             if k == "hard":
                 return hard_value
+        pins = self.spec.get("pins")
+        if pins and name in pins:
+            return self.eng.sym_int(name, pins[name], pins[name])
         return self.eng.sym_int(name, lo, hi)
 
     # -- oracle side ------------------------------------------------------------------------
